@@ -22,5 +22,5 @@ CONSTANTS
   CRoot = 3
   DropLockBug = FALSE
   CachedLevelBug = FALSE
-INVARIANTS CTypeOK MutualExclusion RefinesWhenFree LPWWhenFree LockedReturnsAtomic LockFreeReadOK JointSequential
+INVARIANTS JointSequential
 CHECK_DEADLOCK FALSE
